@@ -40,11 +40,11 @@ static const char *const kind_ext[NKINDS] = {
 
 enum { M_NONE, M_TOKDEL, M_TOKDUP, M_TOKSWAP, M_NUMPERTURB, M_KWREORDER,
        M_LINEDEL, M_LINEDUP, M_TRUNCATE, M_YAMLKIND, M_RANDBYTES, M_INSERT,
-       M_SPLICE, NMUT };
+       M_SPLICE, M_KWREPEAT, NMUT };
 static const char *const mut_name[NMUT] = {
     "none", "tokDel", "tokDup", "tokSwap", "numPerturb", "kwReorder",
     "lineDel", "lineDup", "truncate", "yamlKind", "randBytes", "insert",
-    "splice"
+    "splice", "kwRepeat"
 };
 
 /* ------------------------------------------------------------------ seeds */
